@@ -560,3 +560,93 @@ Fixpoint val_matches (fuel : nat) (want got : val) : bool :=
     | _, _ => false
     end
   end.
+
+(* ------------------------------------------------------------------ *)
+(** * Runners: the body of the generated public functions
+
+      ssize_t T_encode(dst_p, size, src_p) { struct encoder_t encoder;
+          encoder_init(&encoder, dst_p, size); T_encode_inner(&encoder, src_p);
+          return encoder_get_result(&encoder); }
+
+    (translator/cparse.py checks that every public function has exactly this
+    shape) executed step by step so that the buffer, which lives inside the
+    cursor, can be observed. *)
+
+Definition cursor_undef : val := VRec [("buf_p", VUndef); ("size", VUndef); ("pos", VUndef)].
+
+Definition run_encode (prog : program) (fuel : nat) (inner : string) (src : val) (dst : list Z) (size : Z)
+  : res (Z * list Z) :=
+  let^ (_, o1) := run prog fuel "encoder_init" [cursor_undef; bytes_val dst; VInt size] in
+  match o1 with
+  | c1 :: _ =>
+    let^ (_, o2) := run prog fuel inner [c1; src] in
+    match o2 with
+    | c2 :: _ =>
+      let^ (r, _) := run prog fuel "encoder_get_result" [c2] in
+      match r, cursor_of c2 with
+      | Some z, Some (b, _, _) => ROk (z, b)
+      | _, _ => RFail (FStuck "encoder result")
+      end
+    | _ => RFail (FStuck "encoder objects")
+    end
+  | _ => RFail (FStuck "encoder objects")
+  end.
+
+Definition run_decode (prog : program) (fuel : nat) (inner : string) (dst : val) (src : list Z) (size : Z)
+  : res (Z * val) :=
+  let^ (_, o1) := run prog fuel "decoder_init" [cursor_undef; bytes_val src; VInt size] in
+  match o1 with
+  | c1 :: _ =>
+    let^ (_, o2) := run prog fuel inner [c1; dst] in
+    match o2 with
+    | c2 :: d2 :: _ =>
+      let^ (r, _) := run prog fuel "decoder_get_result" [c2] in
+      match r with
+      | Some z => ROk (z, d2)
+      | _ => RFail (FStuck "decoder result")
+      end
+    | _ => RFail (FStuck "decoder objects")
+    end
+  | _ => RFail (FStuck "decoder objects")
+  end.
+
+(** Outcome codes for the generated case files: 0 agrees, 1 differs, 2 out of
+    bounds, 3 undefined behaviour, 4 uninitialised read, 5 stuck, 6 fuel. *)
+Definition fail_code (f : fail) : Z :=
+  match f with FOob => 2 | FUb => 3 | FUninit => 4 | FStuck _ => 5 | FFuel => 6 end.
+
+Fixpoint zlist_eqb (a b : list Z) : bool :=
+  match a, b with
+  | [], [] => true
+  | x :: a', y :: b' => (x =? y) && zlist_eqb a' b'
+  | _, _ => false
+  end.
+
+(** encode: result = length of [want] and the first bytes are [want] *)
+Definition check_encode prog fuel inner src (want : list Z) : Z :=
+  let n := Z.of_nat (length want) in
+  match run_encode prog fuel inner src (repeat 170 (length want)) n with
+  | ROk (r, b) => if (r =? n) && zlist_eqb (firstn (length want) b) want then 0 else 1
+  | RFail f => fail_code f
+  end.
+
+(** encode into a destination that is too small: a negative result, nothing else *)
+Definition check_encode_small prog fuel inner src (size : Z) : Z :=
+  match run_encode prog fuel inner src (repeat 170 (Z.to_nat size)) size with
+  | ROk (r, b) => if r <? 0 then 0 else 1
+  | RFail f => fail_code f
+  end.
+
+Definition check_decode prog fuel inner (skeleton want : val) (src : list Z) : Z :=
+  let n := Z.of_nat (length src) in
+  match run_decode prog fuel inner skeleton src n with
+  | ROk (r, d) => if (r =? n) && val_matches 64 want d then 0 else 1
+  | RFail f => fail_code f
+  end.
+
+(** decode of arbitrary bytes: any result code, but no failure of the abstract machine *)
+Definition check_decode_safe prog fuel inner (skeleton : val) (src : list Z) : Z :=
+  match run_decode prog fuel inner skeleton src (Z.of_nat (length src)) with
+  | ROk _ => 0
+  | RFail f => fail_code f
+  end.
